@@ -378,6 +378,9 @@ class E1Model:
         sc = self.sc
         sci, soi = ln["src"]
         src = sc["components"][sci]
+        if src["kind"] == "sim" and src["outputs"][soi].get("static"):
+            v0 = float(src["outputs"][soi]["base"])
+            return LinkModel(ln["chain"], self.t0, source_eval=lambda t, v0=v0: (v0,))
         if src["kind"] == "sim":
             init = src["start"]
             return LinkModel(ln["chain"], init, source_pubs=lambda upto, a=sci, b=soi: self.pubs(a, b, upto),
@@ -385,6 +388,14 @@ class E1Model:
         if src["kind"] == "static":
             # one publication, served unchanged for every request time (chains are pass-through only)
             v0 = float(src["outputs"][soi]["base"])
+            if src["inputs"]:
+                # derived from the initial values of its own inputs (pulled once, for the composition start)
+                def evs(t, sci=sci, v0=v0):
+                    alts = [(v0,)]
+                    for ii in range(len(sc["components"][sci]["inputs"])):
+                        alts.append(self.lm[self.links[(sci, ii)]].pull_initial(self.t0))
+                    return _cap(tuple(sum(x) for x in product(*alts)))
+                return LinkModel(ln["chain"], self.t0, source_eval=evs)
             return LinkModel(ln["chain"], self.t0, source_eval=lambda t, v0=v0: (v0,))
         # pull-based source: info time comes from the consumer side
         init = self.t0      # pull-based stubs declare the composition start on their slots
@@ -490,10 +501,10 @@ class E1Model:
             return set()
         sci, soi = ln["src"]
         src = self.sc["components"][sci]
+        if src["kind"] == "static" or src["outputs"][soi].get("static"):
+            return set()
         if src["kind"] == "sim":
             return {(sci, soi, tr)}
-        if src["kind"] == "static":
-            return set()
         out = set()
         seen = seen or set()
         if (sci, tr) in seen:
